@@ -97,7 +97,7 @@ func c05AddrByName(n string) common.Address {
 // c05ArgLoader: copy calldata[32*n:] to memory[0:], push n calldata words (word 0 deepest), run op, STOP.
 func c05ArgLoader(n int, op vm.OpCode) []byte {
 	a := &c02Asm{}
-	a.Push(uint64(32 * n)).Op(vm.CALLDATASIZE, vm.SUB) // size = CALLDATASIZE - 32n
+	a.Push(uint64(32*n)).Op(vm.CALLDATASIZE, vm.SUB) // size = CALLDATASIZE - 32n
 	a.Push(uint64(32 * n)).Push(0).Op(vm.CALLDATACOPY)
 	for i := 0; i < n; i++ {
 		a.Push(uint64(32 * i)).Op(vm.CALLDATALOAD)
